@@ -176,7 +176,7 @@ theorem compressKids_nil (s : CState) : compressKids [] s = ([], s) := by simp o
 theorem compressKids_visited (fn : Bytes) (ks r : List Tree) (s : CState) (h : s.vis.contains fn = true) :
     compressKids (.node fn ks :: r) s =
       (.node (refPrefix ++ fn) [] :: (compressKids r s).1, (compressKids r s).2) := by
-  simp only [compressKids, h, if_true]
+  simp only [compressKids, compressNode, Tree.fn, h, if_true]
 
 theorem compressKids_fresh (fn : Bytes) (ks r : List Tree) (s : CState) (h : s.vis.contains fn = false) :
     compressKids (.node fn ks :: r) s =
@@ -187,7 +187,16 @@ theorem compressKids_fresh (fn : Bytes) (ks r : List Tree) (s : CState) (h : s.v
        (compressKids r { vis := (compressKids ks { s with vis := fn :: s.vis }).2.vis,
                           heap := (compressKids ks { s with vis := fn :: s.vis }).2.heap.ins fn
                             (.node fn (compressKids ks { s with vis := fn :: s.vis }).1) }).2) := by
-  simp only [compressKids, h, Bool.false_eq_true, if_false]
+  simp only [compressKids, compressNode, Tree.fn, h, Bool.false_eq_true, if_false]
+
+theorem collectKids_nil (m : Heap) : collectKids [] m = m := by simp only [collectKids]
+
+theorem collectKids_cons (fn : Bytes) (ks r : List Tree) (m : Heap) :
+    collectKids (.node fn ks :: r) m =
+      if hasPrefix fn refPrefix then collectKids r m
+      else collectKids r (collectKids ks (m.ins fn (.node fn ks))) := by
+  simp only [collectKids, collectNode, Tree.fn]
+  rfl
 
 theorem depthK_cons (fn : Bytes) (ks r : List Tree) :
     depthK (.node fn ks :: r) = max (depthK ks + 1) (depthK r) := by
@@ -339,28 +348,28 @@ theorem compressKids_vis : ∀ (n : Nat) (l : List Tree), sizeK l ≤ n → ∀ 
   | zero =>
     intro l hl s k hk
     cases l with
-    | nil => simpa [compressKids] using hk
+    | nil => simpa [compressKids_nil] using hk
     | cons k r => cases k; simp [sizeK, Tree.size] at hl
   | succ n ih =>
     intro l hl s k hk
     cases l with
-    | nil => simpa [compressKids] using hk
+    | nil => simpa [compressKids_nil] using hk
     | cons t r =>
       cases t with
       | node fn ks =>
         have hsz : sizeK ks ≤ n ∧ sizeK r ≤ n := by simp only [sizeK, Tree.size] at hl; omega
         by_cases hv : s.vis.contains fn = true
-        · simp only [compressKids, hv, if_true]
+        · rw [compressKids_visited fn ks r s hv]
           exact ih r hsz.2 s k hk
         · have hv' : s.vis.contains fn = false := by simpa using hv
-          simp only [compressKids, hv']
+          rw [compressKids_fresh fn ks r s hv']
           apply ih r hsz.2
           apply ih ks hsz.1
           exact List.mem_cons_of_mem _ hk
 
 /-- **collect on the plugin side rebuilds the compressor's pointees**: whatever commutes with the
 insertions of not-yet-visited files can be pushed through. -/
-theorem collect_compress (hN : Tree → Prop) :
+theorem collect_compress :
     ∀ (n : Nat) (l : List Tree), sizeK l ≤ n → (∀ d, d ∈ nodesK l → stripPrefix d.fn refPrefix = none) →
     ∀ (s : CState) (g : Heap → Heap),
       (∀ k v H, k ∉ s.vis → g (Heap.ins k v H) = Heap.ins k v (g H)) →
@@ -370,12 +379,12 @@ theorem collect_compress (hN : Tree → Prop) :
   | zero =>
     intro l hl _ s g _
     cases l with
-    | nil => simp [compressKids, collectKids]
+    | nil => simp [compressKids_nil, collectKids_nil]
     | cons k r => cases k; simp [sizeK, Tree.size] at hl
   | succ n ih =>
     intro l hl hno s g hg
     cases l with
-    | nil => simp [compressKids, collectKids]
+    | nil => simp [compressKids_nil, collectKids_nil]
     | cons t r =>
       cases t with
       | node fn ks =>
@@ -388,7 +397,8 @@ theorem collect_compress (hN : Tree → Prop) :
         · rw [compressKids_visited fn ks r s hv]
           have hp : hasPrefix (refPrefix ++ fn) refPrefix = true := by
             rw [hasPrefix_iff_strip, stripPrefix_append]; rfl
-          simp only [collectKids, hp, if_true]
+          rw [collectKids_cons]
+          simp only [hp, if_true]
           exact ih r hsz.2 hr s g hg
         · have hv' : s.vis.contains fn = false := by simpa using hv
           have hnv : fn ∉ s.vis := by simpa using hv'
@@ -396,7 +406,8 @@ theorem collect_compress (hN : Tree → Prop) :
           have hs : stripPrefix fn refPrefix = none := by
             simpa [Tree.fn] using hno _ (mem_nodesK_cons_self (.node fn ks) r)
           have hp : hasPrefix fn refPrefix = false := by rw [hasPrefix_iff_strip, hs]; rfl
-          simp only [collectKids, hp, Bool.false_eq_true, if_false]
+          rw [collectKids_cons]
+          simp only [hp, Bool.false_eq_true, if_false]
           -- push the insertion of `fn` through the recursive call
           let sa : CState := { s with vis := fn :: s.vis }
           let c := Tree.node fn (compressKids ks sa).1
@@ -412,5 +423,155 @@ theorem collect_compress (hN : Tree → Prop) :
           let s2 : CState := { vis := (compressKids ks sa).2.vis, heap := (compressKids ks sa).2.heap.ins fn c }
           exact ih r hsz.2 hr s2 g (fun k v H hk' => hg k v H (fun h => hk'
             (compressKids_vis _ ks (Nat.le_refl _) sa k (List.mem_cons_of_mem _ h))))
+
+/-! ### data trailer -/
+
+theorem hasSuffix_append (d s : Bytes) : hasSuffix (d ++ s) s = true := by
+  simp [hasSuffix]
+
+theorem hasSuffix_split (d s : Bytes) (h : hasSuffix d s = true) : ∃ p, d = p ++ s := by
+  simp only [hasSuffix, Bool.and_eq_true, decide_eq_true_eq, beq_iff_eq] at h
+  refine ⟨d.take (d.length - s.length), ?_⟩
+  have := List.take_append_drop (d.length - s.length) d
+  rw [h.2] at this
+  exact this.symm
+
+theorem trailer_last : trailerMagic.getLast? = some 255 := by decide
+
+theorem no_trailer_of_stop (x : Bytes) (feature : Nat) : hasDataTrailerFeature (x ++ [0]) feature = false := by
+  have hs : hasSuffix (x ++ [0]) trailerMagic = false := by
+    cases h : hasSuffix (x ++ [0]) trailerMagic with
+    | false => rfl
+    | true =>
+      obtain ⟨p, hp⟩ := hasSuffix_split _ _ h
+      have := congrArg List.getLast? hp
+      rw [List.getLast?_append, List.getLast?_append, trailer_last] at this
+      simp at this
+  simp [hasDataTrailerFeature, hs]
+
+theorem has_append_trailer (d : Bytes) (feature : Nat) :
+    hasDataTrailerFeature (appendDataTrailer d feature) feature = true := by
+  have hl : ¬ ((d ++ [feature]) ++ trailerMagic).length < trailerMagic.length + 1 := by simp
+  have hidx : ((d ++ [feature]) ++ trailerMagic).length - 1 - trailerMagic.length = d.length := by simp
+  simp only [hasDataTrailerFeature, appendDataTrailer, hasSuffix_append, hidx]
+  simp [hl]
+
+/-! ### splitting -/
+
+theorem cut_nosep (sep : Nat) (x r : Bytes) (h : ∀ c, c ∈ x → c ≠ sep) :
+    cut sep (x ++ sep :: r) = (x, r, true) := by
+  induction x with
+  | nil => simp [cut]
+  | cons a x ih =>
+    have ha : a ≠ sep := h a (List.mem_cons_self ..)
+    simp [cut, ha, ih (fun c hc => h c (List.mem_cons_of_mem _ hc))]
+
+theorem cut_none (sep : Nat) (x : Bytes) (h : ∀ c, c ∈ x → c ≠ sep) : cut sep x = (x, [], false) := by
+  induction x with
+  | nil => simp [cut]
+  | cons a x ih =>
+    have ha : a ≠ sep := h a (List.mem_cons_self ..)
+    simp [cut, ha, ih (fun c hc => h c (List.mem_cons_of_mem _ hc))]
+
+theorem splitOn_ne_nil (sep : Nat) (x : Bytes) : splitOn sep x ≠ [] := by
+  induction x with
+  | nil => simp [splitOn]
+  | cons a x ih =>
+    simp only [splitOn]
+    split
+    · simp
+    · split <;> simp
+
+theorem splitOn_nosep (sep : Nat) (x r : Bytes) (h : ∀ c, c ∈ x → c ≠ sep) :
+    splitOn sep (x ++ sep :: r) = x :: splitOn sep r := by
+  induction x with
+  | nil => simp [splitOn]
+  | cons a x ih =>
+    have ha : a ≠ sep := h a (List.mem_cons_self ..)
+    simp [splitOn, ha, ih (fun c hc => h c (List.mem_cons_of_mem _ hc))]
+
+theorem splitOn_none (sep : Nat) (x : Bytes) (h : ∀ c, c ∈ x → c ≠ sep) : splitOn sep x = [x] := by
+  induction x with
+  | nil => simp [splitOn]
+  | cons a x ih =>
+    have ha : a ≠ sep := h a (List.mem_cons_self ..)
+    simp [splitOn, ha, ih (fun c hc => h c (List.mem_cons_of_mem _ hc))]
+
+theorem splitN2_nosep (sep : Nat) (x r : Bytes) (h : ∀ c, c ∈ x → c ≠ sep) :
+    splitN2 sep (x ++ sep :: r) = (x, some r) := by
+  induction x with
+  | nil => simp [splitN2]
+  | cons a x ih =>
+    have ha : a ≠ sep := h a (List.mem_cons_self ..)
+    simp [splitN2, ha, ih (fun c hc => h c (List.mem_cons_of_mem _ hc))]
+
+theorem splitN2_none (sep : Nat) (x : Bytes) (h : ∀ c, c ∈ x → c ≠ sep) : splitN2 sep x = (x, none) := by
+  induction x with
+  | nil => simp [splitN2]
+  | cons a x ih =>
+    have ha : a ≠ sep := h a (List.mem_cons_self ..)
+    simp [splitN2, ha, ih (fun c hc => h c (List.mem_cons_of_mem _ hc))]
+
+/-! ### version strings -/
+
+/-- a non-empty string of ASCII digits -/
+def IsDigits (d : Bytes) : Prop := d ≠ [] ∧ ∀ c, c ∈ d → isDigit c = true
+
+/-- its decimal value -/
+def digitsNat (d : Bytes) : Nat := d.foldl (fun a c => a * 10 + (c - 48)) 0
+
+/-- `vA.B.C` or `vA.B.C-pre` -/
+def verString (a b c : Bytes) (pre : Option Bytes) : Bytes :=
+  118 :: (a ++ 46 :: (b ++ 46 :: (c ++ (match pre with | none => [] | some p => 45 :: p))))
+
+theorem digitsVal_digits (d : Bytes) (acc : Nat) (h : ∀ c, c ∈ d → isDigit c = true) :
+    digitsVal d acc = some (d.foldl (fun a c => a * 10 + (c - 48)) acc) := by
+  induction d generalizing acc with
+  | nil => rfl
+  | cons c d ih =>
+    have hc := h c (List.mem_cons_self ..)
+    simp [digitsVal, hc, ih _ (fun x hx => h x (List.mem_cons_of_mem _ hx))]
+
+theorem atoi_digits (d : Bytes) (h : IsDigits d) :
+    atoi d = if digitsNat d > maxInt64 then (maxInt64 : Int) else (digitsNat d : Int) := by
+  obtain ⟨hne, hd⟩ := h
+  cases d with
+  | nil => exact absurd rfl hne
+  | cons c r =>
+    have hc := hd c (List.mem_cons_self ..)
+    simp only [isDigit, Bool.and_eq_true, decide_eq_true_eq] at hc
+    have h43 : c ≠ 43 := by omega
+    have h45 : c ≠ 45 := by omega
+    have hv := digitsVal_digits (c :: r) 0 hd
+    have hs : signSplit (c :: r) = (false, c :: r) := by
+      unfold signSplit
+      split
+      · rename_i heq; simp at heq; exact absurd heq.1 h43
+      · rename_i heq; simp at heq; exact absurd heq.1 h45
+      · rfl
+    simp only [atoi, hs, List.isEmpty_cons, Bool.false_eq_true, if_false, hv, digitsNat]
+    rfl
+
+theorem digit_ne (c : Nat) (h : isDigit c = true) : c ≠ 45 ∧ c ≠ 46 := by
+  simp only [isDigit, Bool.and_eq_true, decide_eq_true_eq] at h; omega
+
+/-! ### option strings -/
+
+/-- `strings.Join(xs, ",")` -/
+def joinComma : List Bytes → Bytes
+  | [] => []
+  | [x] => x
+  | x :: y :: r => x ++ 44 :: joinComma (y :: r)
+
+theorem splitOn_joinComma (xs : List Bytes) (hne : xs ≠ []) (h : ∀ x, x ∈ xs → ∀ c, c ∈ x → c ≠ 44) :
+    splitOn 44 (joinComma xs) = xs := by
+  induction xs with
+  | nil => exact absurd rfl hne
+  | cons x r ih =>
+    cases r with
+    | nil => simpa [joinComma] using splitOn_none 44 x (h x (List.mem_cons_self ..))
+    | cons y r =>
+      simp only [joinComma]
+      rw [splitOn_nosep 44 x _ (h x (List.mem_cons_self ..)), ih (by simp) (fun z hz => h z (List.mem_cons_of_mem _ hz))]
 
 end Plugin
